@@ -14,6 +14,8 @@ MonPath ==
     /\ Check("RequestIsTheSpecifiedPath", Ev.req = "/" \o TilePathOf(Ev.h, Ev.l, Ev.n, Ev.w))
     /\ Check("RequestIsTheReferencePath", Ev.req = "/" \o Ev.tlog)
     /\ Check("ReferenceServerParsesItBack", Ev.parsed)
+    \* (the stub answers the first request for every third tile with a 503: whether the client gives up or asks again, it asks for THAT path)
+    /\ Check("EveryRequestForTheTileIsTheReferencePath", \A j \in 1..Len(Ev.reqs) : Ev.reqs[j] = "/" \o Ev.tlog)
 MonProof ==
     /\ Check("ProofAcceptedByIndependentVerifier", Ev.refok)
     /\ Check("ProofAcceptedByWitness", Ev.accepted)
